@@ -72,6 +72,30 @@ def need (n : Nat) : Dec Unit := fun s => if s.length < n then .error .invalidFi
 def readN (n : Nat) : Dec Bytes := fun s =>
   if s.length < n then .error .invalidFile else .ok (s.take n, s.drop n)
 
+/-- `s.length < n` without walking past the first `n` cells (the compiled judge reads multi-megabyte files: the
+    specification-level `s.length` made every primitive read linear in the rest of the file) -/
+def shorter : Bytes → Nat → Bool
+  | _, 0 => false
+  | [], _ + 1 => true
+  | _ :: t, n + 1 => shorter t n
+
+theorem shorter_eq (s : Bytes) (n : Nat) : shorter s n = decide (s.length < n) := by
+  induction s generalizing n with
+  | nil => cases n <;> simp [shorter]
+  | cons a t ih => cases n with
+    | zero => simp [shorter]
+    | succ n => simp [shorter, ih]
+
+/-- compiled form of `need` / `readN` (same function, proved equal; `@[csimp]` only changes the generated code) -/
+def needFast (n : Nat) : Dec Unit := fun s => if shorter s n then .error .invalidFile else .ok ((), s)
+def readNFast (n : Nat) : Dec Bytes := fun s =>
+  if shorter s n then .error .invalidFile else .ok (s.take n, s.drop n)
+
+@[csimp] theorem need_eq_needFast : @need = @needFast := by
+  funext n s; simp [need, needFast, shorter_eq]
+@[csimp] theorem readN_eq_readNFast : @readN = @readNFast := by
+  funext n s; simp [readN, readNFast, shorter_eq]
+
 /-- `remaining_bytes()` -/
 def remaining : Dec Nat := fun s => .ok (s.length, s)
 
